@@ -124,8 +124,9 @@ func (r *Rand) Bytes(n int) []byte {
 
 // ---- case writer ----
 type Writer struct {
-	f *bufio.Writer
-	N int
+	f    *bufio.Writer
+	N    int
+	path string
 }
 
 func NewWriter(path string) *Writer {
@@ -136,7 +137,17 @@ func NewWriter(path string) *Writer {
 	if err != nil {
 		panic(err)
 	}
-	return &Writer{f: bufio.NewWriterSize(fh, 1<<20)}
+	return &Writer{f: bufio.NewWriterSize(fh, 1<<20), path: path}
+}
+
+// Current records the input that is about to run (and flushes what has completed), so that a crash of the whole
+// process - a panic outside any goroutine the harness can guard - still names its input.
+func (w *Writer) Current(input Val) {
+	if w.path == "" {
+		return
+	}
+	w.f.Flush()
+	os.WriteFile(w.path+".current", []byte(Enc(input)+"\n"), 0o644)
 }
 
 // Case writes one line: ( input impl nontrivial ) ; nontrivial is the harness's per-property rule saying
@@ -146,7 +157,12 @@ func (w *Writer) Case(input, impl Val, nontrivial bool) {
 	w.f.WriteString("\n")
 	w.N++
 }
-func (w *Writer) Close() { w.f.Flush() }
+func (w *Writer) Close() {
+	w.f.Flush()
+	if w.path != "" {
+		os.Remove(w.path + ".current")
+	}
+}
 
 // Tier returns "quick" or "thorough".
 func Tier() string {
